@@ -786,6 +786,11 @@ func diaCase(g *hc.Gen, o *hc.Out, dir string) {
 	if d.lb == text.CR {
 		withEnd = false // a CR-terminated file does not load (law roundtrip:*:cr_ending_line_break)
 	}
+	if f == option.JSON {
+		// a compact JSON text has no line break but the ending one (without it the session's is used,
+		// there is nothing to keep); CR is white space for the JSON loader
+		withEnd = true
+	}
 	importEnc := d.enc
 	if d.enc != text.SJIS && g.Intn(2) == 0 {
 		importEnc = text.AUTO
@@ -812,7 +817,7 @@ func diaCase(g *hc.Gen, o *hc.Out, dir string) {
 // finding: laws dialect:jsonl:line_break, dialect:json:ending_line_break_kind).  While it is not
 // recorded the dialect runs keep the session's line break equal to the file's for these two formats;
 // set to true to check it.
-const jsonLineBreakChecked = false
+const jsonLineBreakChecked = true
 
 // setOppositeSession: every attribute FileInfo.ExportOptions carries, set to something else than the file has
 func setOppositeSession(p *hc.Proc, d opts) {
